@@ -54,10 +54,38 @@ def val_to_py(enc):
     if "fl" in enc:
         return float(enc["fl"])
     if "d" in enc:
+        if "v" in enc:
+            return temporal(enc)
         return {"date": DATE, "time": TIME, "datetime": DATETIME}[enc["d"]]
     if "l" in enc:
         return [str(k) for k in range(enc["l"])]
+    if "x" in enc:
+        return exotic(enc["x"])
     raise ValueError(enc)
+
+
+def temporal(enc):
+    """{"d": kind, "v": [fields], "tz": minutes east of UTC or None} -> date / time / datetime object.
+    (added after seeded round 3: the three constants above were the only stored temporal values)"""
+    tz = enc.get("tz")
+    tzinfo = None if tz is None else dt.timezone(dt.timedelta(minutes=tz))
+    if enc["d"] == "date":
+        return dt.date(*enc["v"])
+    if enc["d"] == "time":
+        return dt.time(*enc["v"], tzinfo=tzinfo)
+    return dt.datetime(*enc["v"], tzinfo=tzinfo)
+
+
+def exotic(tok):
+    """stored values of Python types the converters were not written for (oracle only)"""
+    import decimal
+    import fractions
+    return {"tuple0": (), "tuple1": ("1",), "tuple2": ("1", "2"), "tuple3": ("a", "b", "c"),
+            "dict0": {}, "dict1": {"a": 1}, "bytes": b"1", "bytes0": b"", "bytearray": bytearray(b"12"),
+            "complex": 1j, "decimal": decimal.Decimal("1.5"), "decimal1": decimal.Decimal(1),
+            "fraction": fractions.Fraction(1, 2), "set0": frozenset(), "set1": frozenset(["1"]),
+            "listint": [1, 2], "listint0": [0], "nested": [[]], "nested2": [["1", "2"]],
+            "range2": range(2), "ellipsis": Ellipsis}[tok]
 
 
 def val_to_model(v):
@@ -88,8 +116,9 @@ def val_to_model(v):
         return {"d": "date"}
     if isinstance(v, dt.time):
         return {"d": "time"}
-    if isinstance(v, (list, tuple)):
+    if isinstance(v, list):
         return {"l": len(v)}
+    # (a Python tuple is not a list for the converters: `() in [None, "", [], {}]` is False)
     raise Unsupported("value of type %s" % type(v).__name__)
 
 
@@ -154,12 +183,20 @@ def apply_decor(obj, decor):
             pass
 
 
+def arg_shape(x):
+    """an attribute argument: text as it is; {"i": 1}, {"b": true}, {"x": "tuple1"}, ... -> the Python
+    value of that shape (what a YAML / JSON file with `dependency: 1` hands to the constructor)"""
+    return val_to_py(x) if isinstance(x, dict) else x
+
+
 def build_prop(spec, parent, bt):
     import odml
     vals = [val_to_py(v) for v in spec.get("values", [])]
     dtype = spec.get("dtype")
     prop = None
-    if not spec.get("raw"):
+    if spec.get("via"):
+        prop = build_prop_via(spec, vals, dtype, bt)
+    elif not spec.get("raw"):
         try:
             prop = odml.Property(name=bt.tmp(), oid=tok_id(spec["id"]), values=vals, dtype=dtype)
             same = prop.dtype == dtype or dtype is None
@@ -175,14 +212,60 @@ def build_prop(spec, parent, bt):
         prop._values = list(vals)
         bt.below_api += 1
     if spec.get("dep") is not None:
-        prop.dependency = spec["dep"]
+        prop.dependency = arg_shape(spec["dep"])
     if spec.get("dv") is not None:
-        prop.dependency_value = spec["dv"]
+        prop.dependency_value = arg_shape(spec["dv"])
     if spec.get("card") is not None:
         prop.val_cardinality = tuple(spec["card"])
     apply_decor(prop, spec.get("x"))
     if parent is not None:
         parent.append(prop)
+    return prop
+
+
+VIAS = ["ctor", "setter", "extend", "append", "insert", "item", "each"]
+
+
+def build_prop_via(spec, vals, dtype, bt):
+    """The values enter through one of the public entry points and are stored as the API converts
+    them (text in the documented format becomes a date / time / datetime object, a time zone and
+    sub-seconds are dropped, ...).  A refusal half way leaves the Property in the state the API
+    left it in; a refusal by the constructor -> None (the caller stores the values below the API)."""
+    import odml
+    via = spec["via"]
+    if via not in VIAS:
+        raise ValueError("unknown entry point %r" % via)
+    strict = bool(spec.get("strict", True))
+    try:
+        if via == "ctor":
+            return odml.Property(name=bt.tmp(), oid=tok_id(spec["id"]), values=vals, dtype=dtype)
+        prop = odml.Property(name=bt.tmp(), oid=tok_id(spec["id"]), dtype=dtype)
+    except Exception:
+        return None
+    try:
+        if via == "setter":
+            prop.values = vals
+        elif via == "extend":
+            prop.extend(vals, strict=strict)
+        elif via == "append":
+            for v in vals:
+                prop.append(v, strict=strict)
+        elif via == "insert":
+            for v in vals:
+                prop.insert(0, v, strict=strict)
+        elif via == "item":
+            prop.values = [vals[0]] * len(vals) if vals else []
+            for k, v in enumerate(vals):
+                prop[k] = v
+        elif via == "each":
+            # one assignment per value: the refused ones leave the earlier value behind
+            for v in vals:
+                try:
+                    prop.values = v
+                except Exception:
+                    pass
+    except Exception:
+        pass
     return prop
 
 
@@ -492,8 +575,20 @@ def apply_op(op, root, bt, hist):
             prop.values = [val_to_py(v) for v in value]
         elif attr == "dtype":
             prop.dtype = value
+        elif attr == "extend":
+            prop.extend([val_to_py(v) for v in value], strict=bool(op.get("strict", True)))
+        elif attr == "append":
+            for v in value:
+                prop.append(val_to_py(v), strict=bool(op.get("strict", True)))
         else:
             apply_decor(prop, {attr: value})
+    elif kind == "dset":
+        # attributes of the Document: no rule reads them (the date goes through the date converter)
+        if not is_section(root):
+            value = op.get("value")
+            if isinstance(value, dict):
+                value = val_to_py(value)
+            setattr(root, op["attr"], value)
     elif kind == "validate":
         from odml.validation import Validation
         how = op.get("how")
@@ -514,8 +609,21 @@ def apply_op(op, root, bt, hist):
             return root
         from odml.tools.odmlparser import ODMLReader, ODMLWriter
         fmt = op.get("fmt", "XML")
-        text = ODMLWriter(fmt).to_string(root)
-        new_root = ODMLReader(fmt, show_warnings=False).from_string(text)
+        if op.get("entry") == "file":
+            # the file entry points: odml.save (which validates and may refuse) and odml.load
+            _SCRATCH["n"] = _SCRATCH.get("n", 0) + 1
+            path = os.path.join(scratch_dir(), "rt_%d_%d.%s" % (os.getpid(), _SCRATCH["n"], fmt.lower()))
+            try:
+                odml.save(root, path, fmt)
+                new_root = odml.load(path, fmt, show_warnings=False)
+            finally:
+                try:
+                    os.remove(path)
+                except OSError:
+                    pass
+        else:
+            text = ODMLWriter(fmt).to_string(root)
+            new_root = ODMLReader(fmt, show_warnings=False).from_string(text)
         if new_root is not None and not is_section(new_root):
             hist.stale = []
             return new_root
@@ -685,6 +793,27 @@ def issue_list(errors, refs):
     return sorted(out, key=lambda x: (x[0], x[1] if x[1] is not None else -1, str(x[2])))
 
 
+def rank_flags(errors, refs):
+    """"Errors and warnings are never confused": the two public flags of an issue (is_error is what
+    the writers and the constructors look at) say what the documented rank of its kind says."""
+    out = []
+    for e in errors:
+        want = RANK_OF.get(getattr(e.validation_id, "value", None))
+        if want is None:
+            continue
+        for flag, rank in (("is_error", ERR), ("is_warning", WARN)):
+            try:
+                got = getattr(e, flag)
+            except AttributeError:
+                continue
+            if callable(got):
+                continue
+            if bool(got) != (want == rank):
+                out.append("issue %s on %s: %s is %r, the documented rank of this kind is %s"
+                           % (e.validation_id.value, refs.get(id(e.obj), "?"), flag, got, want))
+    return out
+
+
 # ----------------------------------------------------------------------------- oracle helpers
 def outside(card, n):
     if not card:
@@ -707,6 +836,134 @@ def value_fits(v, dtype):
         return True
     except Exception:
         return False
+
+
+# The same question answered without the library (added after seeded round 3: a change inside a
+# converter of odml/dtypes.py changes value_fits with it, and the oracle then follows the defect).
+# Only the clear-cut part of the documented value formats is decided here - the Python types the
+# dtype is named after, text in exactly the documented layout, text that is not even close to it;
+# everything else (lenient spellings strptime / int() / float() happen to accept, non-ASCII text,
+# foreign Python types) -> None, and the library's own converter is the reference as before.
+_RE_INT = re.compile(r"[+-]?[0-9]+\Z")
+_RE_DEC = re.compile(r"[+-]?[0-9]+(\.[0-9]+)?\Z")
+_RE_DATE = re.compile(r"([0-9]{4})-([0-9]{2})-([0-9]{2})\Z")
+_RE_TIME = re.compile(r"([0-9]{2}):([0-9]{2}):([0-9]{2})\Z")
+_RE_DATETIME = re.compile(r"([0-9]{4})-([0-9]{2})-([0-9]{2}) ([0-9]{2}):([0-9]{2}):([0-9]{2})\Z")
+# text made of nothing but the characters of the three formats may be a lenient spelling strptime
+# accepts ("2020-1-2", "2020-01- 5"): no opinion unless it is exactly the documented layout
+_RE_TEMPORAL_CHARS = re.compile(r"[0-9:\-\s]*[0-9][0-9:\-\s]*\Z")
+STRING_LIKE = ("string", "text", "url", "person")
+DOC_DTYPES = STRING_LIKE + ("int", "float", "boolean", "date", "time", "datetime")
+
+
+def documented_dtype(dtype):
+    """the documented dtype names and the two documented shorthands, lower case; else None"""
+    if not isinstance(dtype, str):
+        return None
+    name = {"str": "string", "bool": "boolean"}.get(dtype, dtype)
+    return name if name in DOC_DTYPES else None
+
+
+def _calendar(m, kind):
+    nums = [int(g) for g in m.groups()]
+    try:
+        if kind == "date":
+            dt.date(*nums)
+        elif kind == "time":
+            if nums[2] >= 60:
+                return None             # strptime knows leap seconds, datetime.time does not
+            dt.time(*nums)
+        else:
+            if nums[5] >= 60:
+                return None
+            dt.datetime(*nums)
+        return True
+    except ValueError:
+        return False
+
+
+def _not_a_number(text):
+    """ASCII text that neither int() nor float() of the standard library reads"""
+    if not text.isascii():
+        return False
+    for conv in (int, float):
+        try:
+            conv(text)
+            return False
+        except ValueError:
+            pass
+        except Exception:
+            return False
+    return True
+
+
+def fits_documented(v, dtype):
+    """True / False where the documented formats leave no doubt, None otherwise."""
+    name = documented_dtype(dtype)
+    if name is None or v is None or type(v) not in (bool, int, float, str, dt.date, dt.time, dt.datetime, list):
+        return None
+    if name in STRING_LIKE:
+        return True
+    is_text = type(v) is str
+    if is_text and v == "":
+        return True                      # the documented "empty value -> default value"
+    if name == "int":
+        if type(v) in (bool, int):
+            return True
+        if type(v) is float:
+            if v != v or v in (float("inf"), float("-inf")):
+                return False
+            return True if v == int(v) else None
+        if is_text:
+            if _RE_INT.match(v):
+                return True
+            return False if _not_a_number(v) else None
+        return False
+    if name == "float":
+        if type(v) in (bool, float):
+            return True
+        if type(v) is int:
+            return True if abs(v) < 2 ** 53 else None
+        if is_text:
+            if _RE_DEC.match(v):
+                return True
+            return False if _not_a_number(v) else None
+        return False
+    if name == "boolean":
+        if type(v) is bool:
+            return True
+        if type(v) is int:
+            return v in (0, 1)
+        if type(v) is float:
+            return None if v in (0.0, 1.0) else False
+        if is_text:
+            if not v.isascii():
+                return None
+            return v.lower() in ("true", "1", "t", "false", "0", "f")
+        if type(v) is list:
+            return None if not v else False
+        return False
+    # the three temporal dtypes: an object of exactly that kind fits whatever it holds (year 1 or
+    # 9999, sub-seconds, a time zone); an object of another kind or a number does not
+    own = {"date": dt.date, "time": dt.time, "datetime": dt.datetime}[name]
+    if type(v) is own:
+        return True
+    if not is_text:
+        return False
+    if not v.isascii():
+        return None
+    m = {"date": _RE_DATE, "time": _RE_TIME, "datetime": _RE_DATETIME}[name].match(v)
+    if m:
+        return _calendar(m, name)
+    return None if _RE_TEMPORAL_CHARS.match(v) else False
+
+
+def infer_documented(v):
+    """dtype inferred from a first value of one of the documented Python types, else None"""
+    if type(v) is str:
+        return "text" if "\n" in v else "string"
+    return {bool: "boolean", int: "int", float: "float", dt.date: "date", dt.time: "time",
+            dt.datetime: "datetime"}.get(type(v))
 
 
 class Expect(object):
@@ -762,14 +1019,20 @@ def expect_prop(p, ref, siblings, ex, validated=True):
     if dtype is None or dtype == "":
         dtype = None
         if vals:
-            from odml import dtypes
-            dtype = dtypes.infer_dtype(vals[0])
+            dtype = infer_documented(vals[0])
+            if dtype is None:
+                from odml import dtypes
+                dtype = dtypes.infer_dtype(vals[0])
     if dtype is not None and isinstance(dtype, str):
         bad = 0
         for v in vals:
             if v is None:
                 break
             fits = value_fits(v, dtype)
+            if fits is not None:
+                indep = fits_documented(v, dtype)
+                if indep is not None:
+                    fits = indep            # the documented format decides, not the converter
             if fits is None:
                 ex.may_raise = True
                 ex.may.add((ref, 402))
@@ -1304,6 +1567,270 @@ def gen_xprop(rng, ids):
             "raw": rng.random() < 0.7, "card": rng.choice([None, None, [2, None], [None, 1]])}
 
 
+# ----------------------------------------------------------------------------- seeded round 3
+# What a stored value HOLDS, and how it got there.  Until now every stored date / time / datetime
+# was one constant (2020-01-02 12:30:00), floats came from six spellings, and a value handed to the
+# API as text that the API converts (the way every file reader hands values in) was thrown away and
+# stored below the API as the text itself.  The pools below cover the content of the typed values
+# along their boundaries, the entry points through which values reach a Property, value lists
+# longer than ten, multi-digit tuple lengths and Python types the converters were not written for.
+W_DATES = [[1, 1, 1], [1, 12, 31], [9, 9, 9], [10, 10, 10], [99, 6, 15], [100, 1, 1], [814, 1, 28], [999, 12, 31],
+           [1000, 1, 1], [1582, 10, 10], [1899, 12, 31], [1900, 1, 1], [1969, 12, 31], [1970, 1, 1], [2000, 2, 29],
+           [2020, 1, 2], [2038, 1, 19], [2100, 2, 28], [9999, 12, 31], [2024, 12, 1], [2011, 12, 1]]
+W_TIMES = [[0, 0, 0, 0], [0, 0, 0, 1], [23, 59, 59, 0], [23, 59, 59, 999999], [12, 30, 0, 0], [9, 5, 3, 0],
+           [1, 2, 3, 500000], [12, 0, 0, 0], [0, 0, 1, 0]]
+W_TZS = [None, None, None, None, 0, 90, -720, 840, -1]
+W_FLOATS = ["-0.0", "1e308", "-1e308", "5e-324", "1e16", "9007199254740993.0", "0.1", "1e-7", "123456789.125",
+            "2.0", "-1.0", "1e22", "1.7976931348623157e308", "0.30000000000000004", "inf", "-inf", "nan", "0.0", "1.0"]
+W_INTS = [0, 1, -1, 2, 10, 999, 1000, -999, 2 ** 31, 2 ** 53, 2 ** 53 + 1, 10 ** 15]
+W_EXOTIC = ["tuple0", "tuple1", "tuple2", "tuple3", "dict0", "dict1", "bytes", "bytes0", "bytearray", "complex",
+            "decimal", "decimal1", "fraction", "set0", "set1", "listint", "listint0", "nested", "nested2", "range2",
+            "ellipsis"]
+W_DTYPES = ["date", "date", "time", "datetime", "datetime", None, None, "string", "text", "int", "float", "boolean",
+            "2-tuple", "str", "bool", "url", "person", ""]
+W_LONG_TUPLES = ["10-tuple", "11-tuple", "12-tuple", "9-tuple", "100-tuple", "02-tuple", "010-tuple"]
+
+
+def pad(n, width):
+    return ("%%0%dd" % width) % n
+
+
+def gen_temporal(rng, kind=None):
+    kind = kind or rng.choice(["date", "date", "time", "datetime", "datetime"])
+    if kind == "date":
+        return {"d": "date", "v": rng.choice(W_DATES)}
+    tz = rng.choice(W_TZS)
+    if kind == "time":
+        return {"d": "time", "v": rng.choice(W_TIMES), "tz": tz}
+    day = rng.choice(W_DATES)
+    if tz is not None and day[0] in (1, 9999):
+        tz = None                           # (utcoffset arithmetic leaves the range of years there)
+    return {"d": "datetime", "v": day + rng.choice(W_TIMES), "tz": tz}
+
+
+def temporal_text(rng, kind=None):
+    """the same boundary values written as text: the documented layout (zero padded), and neighbours
+    of it (unpadded year / month, sub-seconds, a time zone, a 'T', surrounding blanks)"""
+    kind = kind or rng.choice(["date", "date", "time", "datetime", "datetime"])
+    y, m, d = rng.choice(W_DATES)
+    hh, mi, ss, us = rng.choice(W_TIMES)
+    day = "%s-%s-%s" % (pad(y, 4), pad(m, 2), pad(d, 2))
+    clock = "%s:%s:%s" % (pad(hh, 2), pad(mi, 2), pad(ss, 2))
+    text = {"date": day, "time": clock, "datetime": day + " " + clock}[kind]
+    r = rng.random()
+    if r < 0.70:
+        return text
+    if r < 0.78:
+        return text.replace(pad(y, 4), str(y), 1) if kind != "time" else "%d:%d:%d" % (hh, mi, ss)
+    if r < 0.84:
+        return "%d-%d-%d" % (y, m, d) if kind == "date" else text + ".%06d" % us
+    if r < 0.88:
+        return text + rng.choice(["+01:30", "Z", " UTC"])
+    if r < 0.92:
+        return text.replace(" ", "T") if kind == "datetime" else " " + text
+    if r < 0.96:
+        return text + rng.choice([" ", "\n", "\t"])
+    return rng.choice(["0000-01-01", "10000-01-01", "-001-01-01", "0999-12-32", "0999-13-01", "0999-02-29",
+                       "1900-02-29", "2000-02-29", "24:00:00", "23:59:60", "0000-00-00 00:00:00", "00:00:00",
+                       "9999-12-31 23:59:59", "0001-01-01 00:00:00"])
+
+
+def gen_wide_val(rng, strs, lean=None):
+    """one value of the wide pools; `lean` prefers the kind a dtype is named after"""
+    r = rng.random()
+    if lean in ("date", "time", "datetime") and r < 0.8:
+        return gen_temporal(rng, lean) if r < 0.45 else {"s": temporal_text(rng, lean)}
+    if r < 0.30:
+        return gen_temporal(rng)
+    if r < 0.48:
+        return {"s": temporal_text(rng)}
+    if r < 0.60:
+        return {"fl": rng.choice(W_FLOATS)}
+    if r < 0.70:
+        return {"i": rng.choice(W_INTS)}
+    if r < 0.76:
+        return {"s": rng.choice(XSTRS)}
+    return gen_val(rng, strs)
+
+
+def gen_wide_prop(rng, ids, strs, name="p"):
+    dtype = rng.choice(W_DTYPES)
+    r = rng.random()
+    how = {"raw": True} if r < 0.30 else {"raw": False} if r < 0.42 else \
+        {"via": rng.choice(VIAS), "strict": rng.random() < 0.5}
+    # raw: stored as it is, below the API; raw False: the constructor, kept only if the API stores the
+    # values unchanged; via: stored as the API converts them (one kind of value per Property then,
+    # more often than not - the API refuses mixtures)
+    lean = dtype if rng.random() < 0.7 else None
+    if "via" in how and rng.random() < 0.7:
+        lean = dtype if dtype in ("date", "time", "datetime") else rng.choice(["date", "time", "datetime"])
+    n = rng.choice([1, 1, 2, 2, 3, 4])
+    proto = gen_wide_val(rng, strs, lean)
+    if "via" in how and rng.random() < 0.6:
+        key = sorted(proto)[0] if proto else None
+        values = [proto]
+        for _ in range(n - 1):
+            for _try in range(20):
+                nxt = gen_wide_val(rng, strs, lean)
+                if nxt and key in nxt and nxt.get("d") == proto.get("d"):
+                    values.append(nxt)
+                    break
+    else:
+        values = [proto if rng.random() < 0.3 else gen_wide_val(rng, strs, lean) for _ in range(n)]
+    if rng.random() < 0.08:
+        values.insert(rng.randrange(len(values) + 1), None)
+    p = {"id": ids(), "name": name, "dtype": dtype, "values": values,
+         "card": rng.choice([None, None, None, [2, None], [None, 1], [1, 3]])}
+    p.update(how)
+    return p
+
+
+def gen_long_prop(rng, ids, strs):
+    """value lists around and beyond ten values, the misfits placed anywhere (also beyond the 10th);
+    tuple dtypes whose length has two or three digits"""
+    if rng.random() < 0.4:
+        dtype = rng.choice(W_LONG_TUPLES)
+        n = rng.choice([1, 2, 3])
+        values = [{"l": rng.choice([2, 9, 10, 11, 12, 100])} for _ in range(n)]
+        return {"id": ids(), "name": "p", "dtype": dtype, "values": values, "raw": True, "card": None}
+    dtype = rng.choice(["int", "date", "time", "datetime", "float", "boolean", "string"])
+    fit = {"int": {"i": 1}, "date": {"d": "date", "v": [2020, 1, 2]}, "time": {"d": "time", "v": [1, 2, 3, 0], "tz": None},
+           "datetime": {"d": "datetime", "v": [2020, 1, 2, 3, 4, 5, 0], "tz": None}, "float": {"fl": "2.5"},
+           "boolean": {"b": True}, "string": {"s": "abc"}}[dtype]
+    n = rng.choice([9, 10, 11, 12, 13, 20])
+    values = [fit] * n
+    for _ in range(rng.choice([0, 1, 1, 2, 3])):
+        k = n - 1 - rng.randrange(min(4, n)) if rng.random() < 0.6 else rng.randrange(n)
+        values[k] = rng.choice([{"s": "abc"}, {"d": "datetime", "v": [999, 1, 1, 0, 0, 0, 0], "tz": None}, {"l": 2},
+                                {"s": "0999-12-31"}, {"i": 7}, gen_wide_val(rng, strs)])
+    if rng.random() < 0.1:
+        values[rng.randrange(n)] = None
+    return {"id": ids(), "name": "p", "dtype": dtype, "values": values, "raw": True,
+            "card": rng.choice([None, [10, None], [None, 10], [9, 11], [11, 12], [None, 9]])}
+
+
+def gen_exotic_prop(rng, ids, strs):
+    dtype = rng.choice(W_DTYPES + ["tuple", "1-tuple", "3-tuple"])
+    values = []
+    for _ in range(rng.choice([1, 1, 2, 3])):
+        values.append({"x": rng.choice(W_EXOTIC)} if rng.random() < 0.7 else gen_wide_val(rng, strs))
+    p = {"id": ids(), "name": "p", "dtype": dtype, "values": values, "card": None}
+    if rng.random() < 0.6:
+        p["raw"] = True
+    else:
+        p["via"] = rng.choice(VIAS)
+        p["strict"] = rng.random() < 0.5
+    return p
+
+
+def gen_values_case(rng, strs):
+    """a small, otherwise clean Document whose Properties hold the wide values; dependencies on
+    them; then a short history in which values enter through further entry points (setter, append,
+    extend, a writer + reader, a file), with validations before, in the middle and after; validated
+    as Document, Section, Property inside it"""
+    ids = id_source(rng, 0.0)
+    secs = []
+    for k in range(rng.choice([1, 1, 2])):
+        props = []
+        for j in range(rng.choice([1, 2, 2, 3, 4])):
+            props.append(gen_wide_prop(rng, ids, strs, "p%d" % j))
+        for q in props:
+            if rng.random() < 0.25:
+                tgt = rng.choice(props)
+                q["dep"] = tgt["name"]
+                if rng.random() < 0.7:
+                    texts = [v["s"] for v in tgt["values"] if v is not None and "s" in v]
+                    q["dv"] = rng.choice(texts + [temporal_text(rng), "0999-12-31", "1", "true"])
+        sec = {"id": ids(), "name": "s%d" % k, "type": rng.choice(["t", "t", "u", "n.s."]), "sc": None,
+               "pc": rng.choice([None, None, [1, None], [None, 2]]), "props": props, "subs": []}
+        if rng.random() < 0.4:
+            sec["subs"] = [{"id": ids(), "name": "sub", "type": "t", "sc": None, "pc": None,
+                            "props": [gen_wide_prop(rng, ids, strs, "q%d" % j) for j in range(rng.choice([1, 2]))],
+                            "subs": []}]
+        secs.append(sec)
+    ops = []
+    for _ in range(rng.choice([0, 0, 1, 1, 2, 3])):
+        at = [rng.randrange(2)] + ([0] if rng.random() < 0.3 else [])
+        r = rng.random()
+        if r < 0.35:
+            lean = rng.choice(["date", "time", "datetime", None])
+            ops.append({"op": "pset", "at": at, "i": rng.randrange(4), "attr": rng.choice(["values", "extend", "append"]),
+                        "value": [gen_wide_val(rng, strs, lean) for _ in range(rng.choice([1, 1, 2, 3]))],
+                        "strict": rng.random() < 0.5})
+        elif r < 0.50:
+            ops.append({"op": "pset", "at": at, "i": rng.randrange(4), "attr": "dtype",
+                        "value": rng.choice(["date", "time", "datetime", "string", "int", None, "text"])})
+        elif r < 0.70:
+            ops.append({"op": "add_prop", "at": at, "prop": gen_wide_prop(rng, ids, strs, rng.choice(["n", "p0", "n2"]))})
+        elif r < 0.82:
+            ops.append({"op": "dset", "attr": rng.choice(["date", "date", "author", "version", "repository"]),
+                        "value": rng.choice([gen_temporal(rng, "date"), {"s": temporal_text(rng, "date")}, {"s": "x"},
+                                             {"s": ""}, None, gen_temporal(rng, "datetime")])})
+        elif r < 0.90:
+            ops.append({"op": "pclone", "at": at, "i": rng.randrange(4), "to": [rng.randrange(2)],
+                        "keep_id": rng.random() < 0.3, "rename": rng.choice(["cl", "cl2"])})
+        else:
+            ops.append({"op": "clone", "at": at, "to": [], "keep_id": False, "rename": "copy"})
+    if rng.random() < 0.2:
+        # the wide values below a linking / including / merged / cloned Section
+        ops.insert(rng.randrange(len(ops) + 1), gen_feature_op(rng, ids))
+    if rng.random() < 0.4:
+        ops.insert(rng.randrange(len(ops) + 1),
+                   {"op": "roundtrip", "fmt": rng.choice(["XML", "XML", "JSON", "YAML"]),
+                    "entry": rng.choice(["string", "file"])})
+    if rng.random() < 0.3:
+        ops.insert(rng.randrange(len(ops) + 1),
+                   {"op": "validate", "how": rng.choice(["new", "method", "deferred"]), "judge": rng.random() < 0.7})
+    case = {"stream": "vals", "kind": "doc", "node": {"id": ids(), "secs": secs}, "ops": ops}
+    r = rng.random()
+    if r < 0.20:
+        case["view"] = {"sec": [rng.randrange(2)] + ([0] if rng.random() < 0.3 else [])}
+    elif r < 0.45:
+        case["view"] = {"sec": [rng.randrange(2)] + ([0] if rng.random() < 0.3 else []), "prop": rng.randrange(4)}
+    if rng.random() < 0.3:
+        case["pre"] = True
+    if "view" not in case and rng.random() < 0.15:
+        case["save"] = {"fmt": rng.choice(SAVE_FORMATS), "entry": rng.choice(["writer", "odml.save"])}
+    return case
+
+
+DEP_SHAPES = [{"i": 1}, {"i": 0}, {"b": True}, {"b": False}, {"fl": "1.5"}, {"fl": "1.0"}, {"x": "tuple1"},
+              {"x": "listint"}, {"x": "dict1"}, {"x": "bytes"}, {"l": 1}, {"d": "date", "v": [999, 12, 31]},
+              {"x": "set1"}, {"x": "decimal1"}]
+
+
+def gen_depshape_case(rng, strs):
+    """dependency / dependency_value that are not text (a number or a truth value is what a YAML or
+    JSON file with `dependency: 1` hands in; the setters take anything): such a dependency names no
+    Property.  Targets named "1" / "True" / "0" and targets whose values are ints, bools, floats."""
+    ids = id_source(rng, 0.0)
+    names = ["a", "1", "True", "0", "1.5", "b"]
+    rng.shuffle(names)
+    props = []
+    for name in names[:rng.choice([2, 3, 4])]:
+        values = [rng.choice([{"i": 1}, {"i": 0}, {"b": True}, {"fl": "1.0"}, {"s": "1"}, {"s": "True"}, {"s": "x"},
+                              {"fl": "1.5"}, {"d": "date", "v": [999, 12, 31]}, {"s": "0999-12-31"}])
+                  for _ in range(rng.choice([0, 1, 2, 3]))]
+        props.append({"id": ids(), "name": name, "dtype": None, "values": values, "raw": True, "card": None})
+    for q in props:
+        if rng.random() < 0.7:
+            r = rng.random()
+            q["dep"] = rng.choice(DEP_SHAPES) if r < 0.6 else rng.choice(names)
+            if rng.random() < 0.7:
+                q["dv"] = rng.choice(DEP_SHAPES + ["1", "True", "x", "", "0999-12-31", "1.0"])
+    sec = {"id": ids(), "name": "s", "type": "t", "sc": None, "pc": None, "props": props, "subs": []}
+    case = {"stream": "depshape", "kind": "doc", "node": {"id": ids(), "secs": [sec]}, "ops": []}
+    if rng.random() < 0.3:
+        case["ops"].append({"op": "roundtrip", "fmt": rng.choice(["YAML", "JSON", "XML"]),
+                            "entry": rng.choice(["string", "file"])})
+    r = rng.random()
+    if r < 0.25:
+        case["view"] = {"sec": [0], "prop": rng.randrange(4)}
+    elif r < 0.4:
+        case["view"] = {"sec": [0]}
+    return case
+
+
 # ----------------------------------------------------------------------------- the check
 class C08(fw.Check):
     prop = "C08"
@@ -1332,6 +1859,8 @@ class C08(fw.Check):
         "decimal exponents small enough not to overflow (fewer than three exponent digits); ints small "
         "enough for float(); names/types/ids without surrogates or non-BMP characters (JSON transport)",
         "a Property inside a Section validated on its own is not a Node of the model: oracle only",
+        "stored values of Python types other than None/bool/int/float/str/date/time/datetime/list, and "
+        "dependency / dependency_value that are not text, are outside the model: oracle only",
         "sections are visited depth-first in the model, breadth-first in the code: issue multisets only",
     ]
     rule = ("random trees (depth <= 3) over small name/type/id alphabets with duplicate ids, empty names, "
@@ -1350,6 +1879,13 @@ class C08(fw.Check):
             "before the last edits) and saved through XML/JSON/YAML/RDF writers and odml.save. Wide (10+ "
             "siblings) and deep (10 levels) trees, two-digit and huge cardinality bounds, whitespace and "
             "non-ASCII names/types, values outside the modelled alphabet (oracle only). "
+            "Content and origin of the stored values: dates / times / datetimes along their boundaries "
+            "(years 1..9999, sub-seconds, time zones) as objects and as text in and around the documented "
+            "layout, float and int boundaries, entered below the API, through the constructor, the values "
+            "setter, append / extend / insert / item assignment (strict and lenient), a writer + reader or a "
+            "file; value lists beyond ten values, tuple lengths of two and three digits, stored values of "
+            "foreign Python types and non-text dependency / dependency_value (oracle only); the fit of a value "
+            "is decided by the documented formats, independently of odml.dtypes, wherever they leave no doubt. "
             "Non-trivial = at least one issue reported; distinct = distinct canonical JSON of the case.")
 
     # -- generation ----------------------------------------------------------
@@ -1435,6 +1971,33 @@ class C08(fw.Check):
                 secs.append(gen_sec(rng, ids, 1, STRS[:20], dirt, [x["name"] for x in secs]))
             cases.append({"stream": "save2", "kind": "doc", "node": {"id": ids(), "secs": secs},
                           "save": {"fmt": rng.choice(SAVE_FORMATS[1:]), "entry": rng.choice(["writer", "odml.save"])}})
+        # ---- streams added after the third seeded round (appended, the ones above are unchanged)
+        for _ in range(2500 if quick else 50000):
+            cases.append({"stream": "wprop", "kind": "prop",
+                          "node": gen_wide_prop(rng, id_source(rng, 0.0), STRS, rng.choice(["p", "p", "=id"]))})
+        for _ in range(1200 if quick else 25000):
+            cases.append(gen_values_case(rng, STRS))
+        for _ in range(400 if quick else 8000):
+            cases.append({"stream": "long", "kind": "prop", "node": gen_long_prop(rng, id_source(rng, 0.0), STRS)})
+        for _ in range(500 if quick else 10000):
+            cases.append({"stream": "xtype", "kind": "prop", "node": gen_exotic_prop(rng, id_source(rng, 0.0), STRS)})
+        for _ in range(300 if quick else 6000):
+            cases.append(gen_depshape_case(rng, STRS))
+        # every boundary date / time / datetime once in each of the three temporal dtypes and without
+        # a dtype, as an object and as text in the documented layout, below the API and through it
+        for day in W_DATES:
+            for clock in (W_TIMES[0], W_TIMES[3]):
+                objs = [{"d": "date", "v": day}, {"d": "time", "v": clock, "tz": None},
+                        {"d": "datetime", "v": day + clock, "tz": None}]
+                texts = [{"s": "%s-%s-%s" % (pad(day[0], 4), pad(day[1], 2), pad(day[2], 2))},
+                         {"s": "%s:%s:%s" % tuple(pad(x, 2) for x in clock[:3])}]
+                texts.append({"s": texts[0]["s"] + " " + texts[1]["s"]})
+                for dtype in ("date", "time", "datetime", None):
+                    for val in objs + texts:
+                        for how in ({"raw": True}, {"via": "ctor"}, {"via": "setter"}):
+                            node = {"id": "p", "name": "p", "dtype": dtype, "values": [val], "card": None}
+                            node.update(how)
+                            cases.append({"stream": "tgrid", "kind": "prop", "node": node})
         return cases
 
     @staticmethod
@@ -1517,6 +2080,8 @@ class C08(fw.Check):
         # what the oracle needs is computed here (the snapshot holds live Python values)
         ex = expectation(kind, snap)
         obs["oracle"] = judge(ex, obs["issues"], obs["crash"])
+        if obs["crash"] is None:
+            obs["oracle"] += rank_flags(val.errors, refs)
         # "Validating any document, Section or Property": every public way of running the validation
         # (a Validation object run again, filled later, asked for its report, made before the last
         # edits; Document.validate) is held to the same rules.  Only deviating results are kept.
@@ -1739,6 +2304,8 @@ class C08(fw.Check):
             what = "+".join(k for k in ("link", "include", "merged") if feat.get(k)) or "plain"
             view = obs.get("kind")
             return ("ops:%s:%s:%s" % (what, view, "issues" if any_issue else "clean"), any_issue)
+        if st == "vals":
+            return ("vals:%s:%s" % (obs.get("kind"), "issues" if any_issue else "clean"), any_issue)
         if st in ("doc", "sub", "sec", "shape", "save2"):
             return ("%s:%s" % (st, "issues" if any_issue else "clean"), any_issue)
         return ("%s:%s" % (st, ",".join(str(c) for c in codes) or "clean"), any_issue)
